@@ -92,14 +92,14 @@ def _worker_classes():
             self.sh.log("begin_exit", wid=self.wid)
 
         def __call__(self, x):
-            call, idx, dur = x
+            call, idx, dur = x[:3]
             self.sh.log("item", wid=self.wid, call=call, idx=idx)
             if self.fault and self.fault[0] == "item" and self.fault[1] == call and self.fault[2] == idx:
                 self.sh.log("item_raise", wid=self.wid, call=call, idx=idx)
                 raise RuntimeError("injected fault in functor")
             if dur:
                 self.sh.nap(dur)
-            return (call, idx)
+            return (call, idx, "r" * x[3]) if len(x) > 3 else (call, idx)
 
         def end(self):
             self.sh.log("end_enter", wid=self.wid)
@@ -144,7 +144,8 @@ def item_duration(call, i):
 
 def make_input(call, ci, sh):
     n = call["n"]
-    items = [(ci, i, item_duration(call, i)) for i in range(n)]
+    size = call.get("result_size", 0)
+    items = [(ci, i, item_duration(call, i)) + ((size,) if size else ()) for i in range(n)]
     form = call.get("form", "list")
     if form == "list":
         return items
@@ -402,7 +403,7 @@ def run_case_here(case, outpath, scratch):
                 try:
                     gen = (pool.imap if call["ordered"] else pool.imap_unordered)(data, call["chunk"])
                     for y in gen:
-                        rec["yields"].append(y)
+                        rec["yields"].append(_compact(y, call))
                     rec["completed"] = True
                 except instr.InjectedFault:
                     raise
@@ -487,13 +488,21 @@ def _label_forked_children():
     os.register_at_fork(before=before, after_in_child=in_child)
 
 
+def _compact(y, call):
+    """Large result payloads are checked here and replaced by a marker so that result files stay small."""
+    size = call.get("result_size", 0)
+    if size and isinstance(y, tuple) and len(y) == 3:
+        return (y[0], y[1], "OK" if y[2] == "r" * size else f"BAD({len(y[2])})")
+    return y
+
+
 def _simple_functor(sh):
     def f(x):
-        call, idx, dur = x
+        call, idx, dur = x[:3]
         sh.log("item", call=call, idx=idx)
         if dur:
             sh.nap(dur)
-        return (call, idx)
+        return (call, idx, "r" * x[3]) if len(x) > 3 else (call, idx)     # large results fill the result pipe
     return f
 
 
@@ -510,7 +519,7 @@ def drive_fmap(case, sh, state):
             sh.log("call_start", call=ci)
             try:
                 for y in m(make_input(call, ci, sh), call["chunk"]):
-                    rec["yields"].append(y)
+                    rec["yields"].append(_compact(y, call))
                 rec["completed"] = True
             except instr.InjectedFault:
                 raise
@@ -538,7 +547,7 @@ def drive_mulpmap(case, sh, state):
             if not isinstance(out, list):
                 rec["exception"] = f"mul_p_map returned {type(out).__name__}, not a list"
                 break
-            rec["yields"] = out
+            rec["yields"] = [_compact(y, call) for y in out]
             rec["completed"] = True
         except instr.InjectedFault:
             raise
@@ -628,6 +637,13 @@ def value_findings(case, result):
         if not rec.get("completed"):
             continue        # the run ended inside this call (deadlock): not a value verdict
         ys = [tuple(y) if isinstance(y, (list, tuple)) else y for y in rec["yields"]]
+        size = call.get("result_size", 0)
+        if size:
+            badblob = [y[:2] for y in ys if not (isinstance(y, tuple) and len(y) == 3 and y[2] == "OK")]
+            if badblob:
+                out.append(("invented-result", f"call {ci}: result payload of {badblob[:3]} is not f(x)"))
+                continue
+            ys = [y[:2] for y in ys]
         n, cs = call["n"], call["chunk"]
         want = [(ci, i) for i in range(n)]
         foreign = [y for y in ys if not (isinstance(y, tuple) and len(y) == 2 and y[0] == ci)]
